@@ -19,6 +19,14 @@ CLAIMS = {
              'contains the suppression dump, and AnalyzerInformation::skipAnalysis accepts only when the whole key compares equal. '
              'Not decided: the files.txt mapping under add/remove/rename histories and the whole-program summaries reuse.',
         design='3/C18', note='Partial: necessary conditions on the key; histories themselves are not enumerated.'),
+    'C22': dict(
+        technique='static analysis: writer/reader agreement (markup model of the string-building writers vs. tinyxml2 reader model), struct field coverage via access facts, sibling-driver agreement',
+        text='Decides, for all 7 summary kinds (ctu calls, unsafe usage, buffer overrun, null pointer, uninit var, class definitions, '
+             'unused functions) that element names written == element names dispatched, attribute names written == read per element, '
+             'every data member of the summary structs is serialized and restored, container keys agree, and both whole-program '
+             'drivers iterate the check registry. The models are derived from the AST on every run (writers: << / + chains with nested '
+             'writers inlined; readers: name-compare scopes and attribute helpers). Not decided: value fidelity of each field.',
+        design='3/C22', note='Structural agreement of both sides; numeric/escaping fidelity of values is not decided.'),
     'C19': dict(
         technique='static analysis: writer/reader agreement between the option parser and the cache key (field who-reads query over the resolved call closure)',
         text='Decides the structural clause "every option the property lists is an input of the cache key": for each listed '
